@@ -23,7 +23,7 @@ func init() {
 		"C11-lockrelease (every Lock/RLock in gldap is released on every path to the function's exit), C11-accounting (every connWg.Add is matched by a Done on every path, rules C12-done-last / C12-add-vs-wait), C11-waker-lifetime (a watcher goroutine that can be told to stop is told so only after (*conn).close has waited for the handlers), C11-waker (some code that runs asynchronously to those goroutines closes or deadlines every connection's socket once shutdownCtx is cancelled, and it is started for every accepted connection before its first read), C11-waker-first (no call that reaches ber.ReadPacket, a bufio.Writer write/flush, a net.Conn/tls.Conn read/write or a TLS handshake lies on a path of the connection goroutine before the watcher start), C11-deadline-kept (every holder of a connection socket is followed; a Set*Deadline that may clear the deadline runs only on the shutdown path, in connection setup, synchronously in the read loop or as the closing half of an arm/clear pair), C11-noblock (the connection goroutine contains no bare channel operation, select without a shutdown case or foreign Wait), " +
 		"C11-stop-order (listener.Close and cancel precede connWg.Wait), C11-run-nil (shutdown exits of Run return nil), C11-nolock (connection goroutines never take Server.mu, which Stop holds across Wait). The time bound itself is not decided."
 	Descriptions["C17"] = "C17-guard (every store of true to Server.listenerReady is control-dependent on net.Listen's error being nil), C17-who (the flag is written only in Run (true) / Stop (false), under Server.mu), " +
-		"C17-errors (no error return of Run before or at the listen failure follows a store of true), C17-serves (no error return of Run between making Ready true and the first Accept), C17-accept-retry (a temporary Accept error never ends Run), C17-accept-unblocked (connection goroutines never take Server.mu, which the accept loop needs for every Accept: rule C11-nolock), C17-accept-nonblocking (the accept loop, helpers included, performs no handshake / read / write on an accepted connection: rule C07-accept-nonblocking), C17-getter (Ready returns the field under the lock). Kernel-level accept behaviour is not decided."
+		"C17-errors (no error return of Run before or at the listen failure follows a store of true), C17-serves (no error return of Run between making Ready true and the first Accept), C17-accept-retry (a temporary Accept error never ends Run), C17-accept-unblocked (connection goroutines never take Server.mu, which the accept loop needs for every Accept: rule C11-nolock), C17-timeouts (a deadline armed at connection setup from a configured timeout is guarded by that timeout being non-zero), C17-accept-nonblocking (the accept loop, helpers included, performs no handshake / read / write on an accepted connection: rule C07-accept-nonblocking), C17-getter (Ready returns the field under the lock). Kernel-level accept behaviour is not decided."
 	Descriptions["C18"] = "C18-wrap (when opts.withTLSConfig != nil the listener Accept is called on is tls.NewListener(plain, thatConfig), installed before the accept loop and never replaced), " +
 		"C18-noplain (newConn receives the Accept result itself; every stream handed to initConn traces back to Accept's result, conn.netConn or tls.Server of those; no code reads the underlying socket; read errors end the connection), " +
 		"C18-directory (testdirectory.GetTLSConfig with WithMTLS sets ClientAuth = RequireAndVerifyClientCert and ClientCAs = the pool of the CA created in the same call, and never weakens verification; Start passes that config to Run unless WithNoTLS). crypto/tls itself is trusted."
@@ -271,6 +271,99 @@ func checkC17(c *Ctx) {
 			}
 		}
 		R.Floor("C17-accept-nonblocking", 1)
+	}
+	// C17-timeouts: "a connection attempt ... is served": a deadline armed at connection setup from a configured timeout
+	// (now + d) is armed only when that timeout is configured (d != 0): with d == 0 the deadline is "now" and every read
+	// (or write) on the connection fails at once, although Ready() is true
+	{
+		nT := 0
+		sameDur := func(x, d ssa.Value) bool {
+			if an.Strip(x) == an.Strip(d) {
+				return true
+			}
+			_, nx := an.FieldChain(an.Strip(x))
+			_, nd := an.FieldChain(an.Strip(d))
+			return len(nx) > 0 && len(nd) > 0 && nx[len(nx)-1] == nd[len(nd)-1]
+		}
+		guarded := func(at ssa.Instruction, d ssa.Value) bool {
+			return hasFact(at.Block(), true, func(v ssa.Value) bool {
+				bo, ok := v.(*ssa.BinOp)
+				if !ok {
+					return false
+				}
+				x, k, op := bo.X, bo.Y, bo.Op
+				if _, isK := an.IntConst(x); isK {
+					x, k = bo.Y, bo.X
+					op = map[token.Token]token.Token{token.LSS: token.GTR, token.GTR: token.LSS, token.NEQ: token.NEQ}[op]
+				}
+				kv, isK := an.IntConst(k)
+				return isK && kv == 0 && (op == token.NEQ || op == token.GTR) && sameDur(x, d)
+			})
+		}
+		// the duration added to "now" in the time argument of a Set*Deadline call
+		durOf := func(t ssa.Value) ssa.Value {
+			call, ok := an.Strip(t).(*ssa.Call)
+			if !ok {
+				return nil
+			}
+			g := call.Common().StaticCallee()
+			if g == nil || an.FuncPkgPath(g) != "time" || g.Name() != "Add" || len(call.Common().Args) != 2 {
+				return nil
+			}
+			return call.Common().Args[1]
+		}
+		for _, u := range c.socketUses() {
+			if !strings.HasPrefix(u.Kind, "method:Set") || !strings.HasSuffix(u.Kind, "Deadline") {
+				continue
+			}
+			ci, isCI := u.Instr.(ssa.CallInstruction)
+			if !isCI || len(ci.Common().Args) == 0 {
+				continue
+			}
+			d := durOf(ci.Common().Args[len(ci.Common().Args)-1])
+			if d == nil {
+				continue
+			}
+			f := u.Fn
+			key := fname(f) + ": " + u.Kind[7:] + "(now + timeout) only when the timeout is configured"
+			// where the duration comes from and where the guard has to be: here, or at the setup call sites of a helper
+			type need struct {
+				at ssa.Instruction
+				d  ssa.Value
+			}
+			var needs []need
+			if p, isP := an.Strip(d).(*ssa.Parameter); isP && p.Parent() == f {
+				idx := -1
+				for i, q := range f.Params {
+					if q == p {
+						idx = i
+					}
+				}
+				for _, g := range shipped {
+					for _, cs := range an.Calls(g) {
+						if an.StaticCallee(cs.Common()) == f && isCall(cs) && idx >= 0 && idx < len(cs.Common().Args) && c.isConnSetup(cs, m) {
+							needs = append(needs, need{cs, cs.Common().Args[idx]})
+						}
+					}
+				}
+			} else if c.isConnSetup(ci, m) {
+				needs = append(needs, need{ci, d})
+			}
+			for _, nd := range needs {
+				if k, isK := an.IntConst(nd.d); isK {
+					nT++
+					R.Check(k > 0, "C17-timeouts", key, c.pos(nd.at), "a positive constant", "the connection's deadline is armed at `now` (a zero duration) during connection setup: nothing can be read or written on it")
+					continue
+				}
+				if _, names := an.FieldChain(an.Strip(nd.d)); len(names) == 0 {
+					continue // not a configured timeout
+				}
+				nT++
+				ok := guarded(nd.at, nd.d) || (nd.at != ssa.Instruction(ci) && guarded(ci, d))
+				R.Check(ok, "C17-timeouts", key, c.pos(nd.at), "control-dependent on that timeout being non-zero", "the deadline is armed from "+an.Path(nd.d)+" without a test that this timeout is configured (non-zero): when it is not, the deadline is `now`, every read or write on the new connection fails at once, and no request is served although Ready() is true")
+			}
+		}
+		R.Count("C17-timeouts/sites", nT)
 	}
 	// C17-getter
 	ls := an.LockSets(ready, nil)
@@ -526,6 +619,21 @@ func checkC18(c *Ctx) {
 						if ec, isC := an.Strip(e).(*ssa.Call); isC && an.CalleeIs(ec.Common(), "crypto/tls", "NewListener") {
 							call, ok = ec, true
 							wrapCallBlock = ec.Block()
+						}
+					}
+				}
+			}
+			if !ok {
+				// the same with the local kept in a variable cell (it is captured by the deferred Close): the stored value
+				// is a load of the cell, one of whose assignments is the TLS listener
+				if ld, isLd := fs.Store.Val.(*ssa.UnOp); isLd && ld.Op == token.MUL {
+					if al, isAl := an.CellRoot(ld.X).(*ssa.Alloc); isAl && al.Parent() == fs.Store.Parent() {
+						sts, _ := an.CellStores(al)
+						for _, cs := range sts {
+							if ec, isC := an.Strip(cs.Val).(*ssa.Call); isC && an.CalleeIs(ec.Common(), "crypto/tls", "NewListener") && an.InstrDominates(cs, fs.Store) == false && an.Search(an.After(cs), isInstr(fs.Store), nil) != nil || isC && an.CalleeIs(ec.Common(), "crypto/tls", "NewListener") && an.InstrDominates(cs, fs.Store) {
+								call, ok = ec, true
+								wrapCallBlock = ec.Block()
+							}
 						}
 					}
 				}
@@ -966,6 +1074,91 @@ func (c *Ctx) checkDirectoryTLS() {
 		}
 	}
 	R.Check(okPool && okFilled, "C18-directory", "GetTLSConfig: ClientCAs = pool of the CA generated in this call", c.pos(clientCAs), "x509.NewCertPool() filled from the PEM of the self-signed CA created above", "ClientCAs is not (only) the CA generated for this directory")
+	// the certificates the directory's CA issues (server, mTLS client) are leaves: a certificate with IsCA set is a
+	// sub-CA, and whoever holds its key can mint client certificates "issued by the configured CA" at will
+	{
+		var isCAOf func(v ssa.Value, bind map[*ssa.Parameter]ssa.Value, depth int) (bool, bool)
+		isCAOf = func(v ssa.Value, bind map[*ssa.Parameter]ssa.Value, depth int) (val bool, known bool) {
+			v = an.Strip(v)
+			if depth > 3 {
+				return false, false
+			}
+			switch x := v.(type) {
+			case *ssa.Alloc:
+				if !an.TypeIs(x.Type(), "crypto/x509", "Certificate") {
+					return false, false
+				}
+				val, known = false, true
+				for _, f := range an.WithClosures(x.Parent()) {
+					an.Instrs(f, func(in ssa.Instruction) {
+						st, ok := in.(*ssa.Store)
+						if !ok {
+							return
+						}
+						fa, ok := st.Addr.(*ssa.FieldAddr)
+						if !ok || an.FieldAddrName(fa) != "IsCA" || an.Strip(fa.X) != ssa.Value(x) {
+							return
+						}
+						sv := an.Strip(st.Val)
+						if p, isP := sv.(*ssa.Parameter); isP && bind[p] != nil {
+							sv = an.Strip(bind[p])
+						}
+						if b, isC := an.BoolConst(sv); isC {
+							val = val || b
+						} else {
+							known = false
+						}
+					})
+				}
+				return val, known
+			case *ssa.Call:
+				g := x.Common().StaticCallee()
+				if g == nil || !an.InModule(g) || len(g.Blocks) == 0 {
+					return false, false
+				}
+				b2 := map[*ssa.Parameter]ssa.Value{}
+				for i, p := range g.Params {
+					if i < len(x.Common().Args) {
+						b2[p] = x.Common().Args[i]
+					}
+				}
+				val, known = false, true
+				for _, ret := range an.Returns(g) {
+					res := an.ReturnResults(ret)
+					if len(res) == 0 {
+						return false, false
+					}
+					rv, rk := isCAOf(res[0], b2, depth+1)
+					if !rk {
+						known = false
+					}
+					val = val || rv
+				}
+				return val, known
+			}
+			return false, false
+		}
+		nLeaf := 0
+		for _, f := range c.shippedFuncs(TD) {
+			for _, ci := range an.Calls(f) {
+				if !an.CalleeIs(ci.Common(), TD, "genCert") || len(ci.Common().Args) < 4 {
+					continue
+				}
+				nLeaf++
+				key := fname(f) + ": certificate issued by the directory's CA is a leaf"
+				isCA, known := isCAOf(ci.Common().Args[3], nil, 0)
+				switch {
+				case !known:
+					R.Unknown("C18-directory", key, c.pos(ci), "cannot tell whether the certificate template handed to genCert has IsCA set")
+				case isCA:
+					R.Fail("C18-directory", key, c.pos(ci), "the template handed to genCert has IsCA set: the issued certificate is a sub-CA, and whoever holds its key can issue client certificates that chain to the configured CA - clients the CA never issued a certificate to pass RequireAndVerifyClientCert")
+				default:
+					R.OK("C18-directory", key, c.pos(ci), "IsCA is not set on the template")
+				}
+			}
+		}
+		R.Count("C18-directory/issued-certificates", nLeaf)
+	}
 	// Start: unless withNoTLS, Run gets WithTLSConfig(d.server) and d.server = GetTLSConfig()#0
 	S := c.opts()
 	var runCall ssa.CallInstruction
@@ -1017,11 +1210,17 @@ func (c *Ctx) checkDirectoryTLS() {
 	if ap := findAppend(rawOpts, 0); ap != nil {
 		if list, ok := S.variadicOptions(ap.Common().Args[1]); ok && len(list) == 1 && list[0].Ctor.Fn.Name() == "WithTLSConfig" && an.FuncPkgPath(list[0].Ctor.Fn) == G {
 			cfg := list[0].Args[0]
-			if base, ok := fieldLoad(cfg, TD, "Directory", "server"); ok {
-				_ = base
+			// the config comes from a field of the Directory (d.server on the pinned tree; whatever its name)
+			cfgField := ""
+			if ld, isLd := an.Strip(cfg).(*ssa.UnOp); isLd && ld.Op == token.MUL {
+				if fa, isFA := ld.X.(*ssa.FieldAddr); isFA && an.TypeIs(fa.X.Type(), TD, "Directory") {
+					cfgField = an.FieldAddrName(fa)
+				}
+			}
+			if cfgField != "" {
 				// d.server = serverTLSConfig = GetTLSConfig(...)#0
 				good := false
-				for _, fs := range fieldStores([]*ssa.Function{start}, TD, "Directory", "server") {
+				for _, fs := range fieldStores([]*ssa.Function{start}, TD, "Directory", cfgField) {
 					if e, ok := an.Strip(fs.Store.Val).(*ssa.Extract); ok && e.Index == 0 {
 						if gc, ok := e.Tuple.(*ssa.Call); ok && an.CalleeIs(gc.Common(), TD, "GetTLSConfig") && an.InstrDominates(fs.Store, ap) {
 							// GetTLSConfig gets Start's own options (so WithMTLS is honoured)
@@ -1501,7 +1700,7 @@ func checkC07(c *Ctx) {
 				nIO++
 				bad := ""
 				for k := range may[ci] {
-					if o := lockOwnerType(f, k); o == "Server" || o == "Mux" {
+					if o := lockOwnerType(f, k); o == "Server" || o == "Mux" || o == "package" {
 						bad = o + "." + strings.TrimSuffix(k[strings.LastIndex(k, ".")+1:], "(r)")
 					}
 				}
@@ -1995,15 +2194,42 @@ func checkC11(c *Ctx) {
 			continue
 		}
 		// (b) f (or an ancestor closure) is the target of a go / AfterFunc, and the call is dominated by a receive from shutdownCtx.Done()
-		var start ssa.Instruction
-		for _, g := range shipped {
-			for _, gi := range an.Calls(g) {
-				if gg, ok := gi.(*ssa.Go); ok && goTarget(gg) == f {
-					start = gg
+		startOf := func(f *ssa.Function) ssa.Instruction {
+			var start ssa.Instruction
+			for _, g := range shipped {
+				for _, gi := range an.Calls(g) {
+					if gg, ok := gi.(*ssa.Go); ok && goTarget(gg) == f {
+						start = gg
+					}
+					if an.CalleeIs(gi.Common(), "context", "AfterFunc") {
+						if t := an.StaticCallee(&ssa.CallCommon{Value: gi.Common().Args[1]}); t == f && c.isShutdownCtx(gi.Common().Args[0]) {
+							start = gi
+						}
+					}
 				}
-				if an.CalleeIs(gi.Common(), "context", "AfterFunc") {
-					if t := an.StaticCallee(&ssa.CallCommon{Value: gi.Common().Args[1]}); t == f && c.isShutdownCtx(gi.Common().Args[0]) {
-						start = gi
+			}
+			return start
+		}
+		start := startOf(f)
+		at := ci // the instruction of the started function that leads to the deadline / close
+		if start == nil {
+			// (c) the call sits in a helper that performs it on every path, called from such a function
+			succRet := func(in ssa.Instruction) bool {
+				ret, ok := in.(*ssa.Return)
+				if !ok {
+					return false
+				}
+				ei := errResultIndex(f)
+				return ei < 0 || !definitelyError(an.ReturnResults(ret)[ei], ret)
+			}
+			if an.Search(an.Entry(f), succRet, isInstr(ci)) == nil {
+				for _, g := range shipped {
+					for _, cs := range an.Calls(g) {
+						if an.StaticCallee(cs.Common()) == f && isCall(cs) {
+							if st := startOf(g); st != nil {
+								start, at = st, cs
+							}
+						}
 					}
 				}
 			}
@@ -2012,7 +2238,7 @@ func checkC11(c *Ctx) {
 			continue
 		}
 		if _, isAfter := start.(*ssa.Go); isAfter {
-			if !c.dominatedByShutdownRecv(ci) {
+			if !c.dominatedByShutdownRecv(at) {
 				continue
 			}
 		}
@@ -2288,9 +2514,8 @@ func checkC11(c *Ctx) {
 		}
 		for _, fct := range an.BranchFacts(b) {
 			cond, neg := an.Not(fct.Cond)
-			if c.isShutdownErrAtom(cond) {
-				_, trueMeansNil, _ := an.NilCheck(cond)
-				if (fct.True != neg) != trueMeansNil { // Err() != nil
+			if tms, ok := c.shutdownTest(cond); ok {
+				if (fct.True != neg) == tms { // Err() != nil
 					return true
 				}
 			}
@@ -2393,6 +2618,29 @@ func (c *Ctx) isShutdownErrAtom(v ssa.Value) bool {
 	return c.isShutdownCtx(call.Common().Value)
 }
 
+// shutdownTest: cond (negation-stripped) tells whether the server is stopping:
+// `ctx.Err() != nil` / `== nil` on the shutdown context, or a call of a module
+// accessor that returns exactly that (`func (s *Server) stopping() bool`).
+// Returns whether a true value of cond means "stopping".
+func (c *Ctx) shutdownTest(cond ssa.Value) (trueMeansStopping bool, ok bool) {
+	if c.isShutdownErrAtom(cond) {
+		_, trueMeansNil, _ := an.NilCheck(cond)
+		return !trueMeansNil, true
+	}
+	if hc, isCall := cond.(*ssa.Call); isCall {
+		if g := an.StaticCallee(hc.Common()); g != nil && an.InModule(g) && len(g.Blocks) > 0 && len(an.Returns(g)) == 1 {
+			if res := an.ReturnResults(an.Returns(g)[0]); len(res) == 1 {
+				inner, ineg := an.Not(res[0])
+				if c.isShutdownErrAtom(inner) {
+					_, tmn, _ := an.NilCheck(inner)
+					return (!tmn) != ineg, true
+				}
+			}
+		}
+	}
+	return false, false
+}
+
 // condIfOf returns the If instruction branching on cond (possibly negated).
 // condIfsOf lists every If that branches on cond (possibly through negations).
 func condIfsOf(cond ssa.Value) []*ssa.If {
@@ -2439,7 +2687,7 @@ func condIfOf(cond ssa.Value) *ssa.If {
 
 func (c *Ctx) isShutdownCtx(v ssa.Value) bool {
 	_, names := an.FieldChain(v)
-	return len(names) >= 1 && names[len(names)-1] == "shutdownCtx"
+	return len(names) >= 1 && (names[len(names)-1] == "shutdownCtx" || names[len(names)-1] == fld("Server", "shutdownCtx") || names[len(names)-1] == fld("conn", "shutdownCtx"))
 }
 
 // derivedShutdownDone: ch is X.Done() for X, _ := context.WithCancel / WithTimeout /
